@@ -151,10 +151,16 @@ func (r *Raft) RaftInit(ctx context.Context) {
 }
 
 func (r *Raft) Apply(cmd []byte, timeout time.Duration) raft.ApplyFuture {
+	if s := r.verifStub(); s != nil {
+		return s.Apply(cmd, timeout)
+	}
 	return r.raft.Apply(cmd, timeout)
 }
 
 func (r *Raft) IsRaftLeader() bool {
+	if s := r.verifStub(); s != nil {
+		return s.Leader()
+	}
 	return r.raft.State() == raft.Leader
 }
 
